@@ -239,6 +239,25 @@ func c02Helpers(c CaseC02) *hx.Failure {
 	if p[3]&0x20 == 0 {
 		return hx.Failf("create-Create+AF", "WithHasAdaptationFieldFlag did not set the flag")
 	}
+	// an option that itself uses the creation helpers (it builds a template packet), followed by further options
+	var inner [3]*packet.Packet
+	nested := func(q *packet.Packet) {
+		inner[0] = packet.Create(pid^1, packet.WithHasAdaptationFieldFlag)
+		inner[1] = packet.CreateTestPacket(pid^2, cc, true, true)
+		inner[2] = packet.CreatePacketWithPayload(pid^3, cc, []byte{1, 2, 3})
+	}
+	p = packet.Create(pid, packet.WithHasPayloadFlag, nested, packet.WithPUSI)
+	if f := hdr("Create+nested", p, true, true); f != nil {
+		return f
+	}
+	if p[1]&0x40 == 0 || p[3]&0x20 != 0 {
+		return hx.Failf("create-Create+nested", "Create(payload flag, <option that creates other packets>, PUSI): header %x, want payload flag and PUSI and nothing else", p[:4])
+	}
+	for i, q := range inner {
+		if q == nil || q[0] != 0x47 || int(q[1]&0x1f)<<8|int(q[2]) != pid^(i+1) {
+			return hx.Failf("create-Create+nested", "packet %d created inside an option is wrong: %x", i, q[:4])
+		}
+	}
 	// adaptation-field flag options (they write the flags byte behind the adaptation_field_length byte)
 	p = packet.Create(pid, packet.WithHasAdaptationFieldFlag, packet.WithAFPrivateDataFlag)
 	if f := hdr("Create+AF+private", p, false, true); f != nil {
